@@ -59,6 +59,19 @@ impl Args {
 // it is not an array / command (they have no panicking arm for value types: see unit notes)
 #[verifier::external_body]
 fn get_mut_receiver() -> (r: Result<(), RtErr>) { unimplemented!() }
+impl Args {
+    // the argument loop of eval_builtin_call: `for arg_expr in args.args { arg_values.push(self.eval_expr(arg_expr)?); }`
+    #[verifier::external_body]
+    pub fn eval_all(&self) -> (r: Result<Vec<Value>, RtErr>)
+        ensures r is Ok <==> self.all_ok(),
+                r is Ok ==> r->Ok_0@.len() == self.n() && forall|k: int| 0 <= k < self.n() ==> r->Ok_0@[k] == (#[trigger] self.vals@[k])->Ok_0,
+    { unimplemented!() }
+}
+// `mem::replace(&mut arg_values[0], Value::Null)`
+#[verifier::external_body]
+fn take_first(v: &mut Vec<Value>) -> (r: Value) requires old(v)@.len() > 0 ensures r == old(v)@[0], final(v)@.len() == old(v)@.len() { unimplemented!() }
+#[verifier::external_body]
+fn global_builtin_io(v: &Value) -> (r: Result<(), RtErr>) { unimplemented!() }   // type_of / read_line / to_string / shout on one evaluated argument
 pub uninterp spec fn string_named(f: &Field) -> Option<StringBuiltin>;
 pub uninterp spec fn number_named(f: &Field) -> Option<NumberBuiltin>;
 pub uninterp spec fn cmd_named(f: &Field) -> Option<ProcessCommandBuiltin>;
@@ -253,5 +266,31 @@ UNIT = VUnit(
                      Rw("R6", r"Err\(RuntimeError::new_with_extras\(\s*RuntimeErrorKind::(\w+),\s*span,\s*field,\s*GlobalBuiltin::type_of\(&receiver\),\s*\)\)", r"Err(RtErr::\1)", min_matches=6)],
            vacuity="-",
            real_name="Runtime::eval_member_call"),
+        Enum("GlobalBuiltin", source="src/builtins/mod.rs"),
+        Raw("impl GlobalBuiltin {"),
+        Fn("arity", label="global_arity", source="src/builtins/mod.rs", impl="impl Builtin for GlobalBuiltin",
+           sig="pub fn arity(&self) -> (r: usize)", expect_sig=r"fn arity\(&self\) -> usize",
+           ensures=["r == 1"], vacuity="-", real_name="<GlobalBuiltin as Builtin>::arity"),
+        Raw("}"),
+        # global built-ins: the resolver has checked the argument count (reserved names: V:static_rules:call_rule), so the arity assertion
+        # and every `arg_values[0]` hold; `command` on a non-string is a reported type mismatch
+        Fn("eval_builtin_call", impl="impl Runtime",
+           sig="fn eval_builtin_call(builtin: GlobalBuiltin, args: &Args) -> (res: Result<Value, RtErr>)",
+           expect_sig=r"fn eval_builtin_call\(\s*&mut self,\s*builtin: GlobalBuiltin,\s*args: &'a ArgList<'a>,\s*span: Span,?\s*\) -> Result<Value<'a>, RuntimeError>",
+           requires=["args.n() == 1"],
+           ensures=["!args.all_ok() ==> res is Err",
+                    "args.all_ok() && builtin is Command ==> (res is Ok <==> args.t(0) == Ty::Str)",
+                    "args.all_ok() && builtin is Command && res is Err ==> res->Err_0 == RtErr::TypeMismatch"],
+           rewrites=[Rw("R11", r"let mut arg_values = Vec::with_capacity_in\(args\.args\.len\(\), self\.frame\);\s*for arg_expr in args\.args \{\s*arg_values\.push\(self\.eval_expr\(arg_expr\)\?\);\s*\}", "let mut arg_values = args.eval_all()?;", min_matches=1),
+                     Rw("R10", r"assert_eq!\(arg_values\.len\(\), builtin\.arity\(\)\);", "assert!(arg_values.len() == builtin.arity());", min_matches=1),   # Verus has assert!, not assert_eq!
+                     Rw("R9", r"mem::replace\(&mut arg_values\[0\], Value::Null\)", "take_first(&mut arg_values)", min_matches=1),
+                     Rw("R13", r"GlobalBuiltin::shout\(&argv\);|self\.output\.push\(argv\);", "", min_matches=2),
+                     Rw("R13", r"let argv = if self\.has_frame_arena\(\) \{.*?\};", "", min_matches=1),
+                     Rw("R9", r"let t = GlobalBuiltin::type_of\((&arg_values\[0\])\);", r"global_builtin_io(\1)?;", min_matches=1),
+                     Rw("R9", r"let s = GlobalBuiltin::read_line\((&arg_values\[0\]), self\.frame\)\s*\.map_err\(\|err\| RuntimeError::new\(err\.into\(\), span\)\)\?;", r"global_builtin_io(\1)?;", min_matches=1),
+                     Rw("R9", r"let s = GlobalBuiltin::to_string\(self\.frame, (&arg_values\[0\])\);", r"global_builtin_io(\1)?;", min_matches=1),
+                     PAY, ERR],
+           vacuity="builtin: GlobalBuiltin, args: &Args",
+           real_name="Runtime::eval_builtin_call"),
     ],
 )
